@@ -1,14 +1,17 @@
 (* C11 — lemmas about the REST model (server side): routing over the generated table, the handlers against the
    hand-written spec_expect, fail-closed, single document, authentication, soundness of the boolean monitor. *)
-From V Require Import Base.Common Base.C11_Http Gen.RestRoutes Gen.RestClient Model.C11_Rest Model.C11_Check Model.C11_Tables.
+From V Require Import Base.Common Base.C11_Http Base.C11_RouteOrder Gen.RestRoutes Gen.RestClient Model.C11_Rest Model.C11_Check Model.C11_Tables
+  Proofs.RouteOrder.
 Open Scope string_scope.
 Open Scope list_scope.
 
 (* ------------------------------------------------------------------------------------------ *)
 (* generated tables                                                                           *)
 (* ------------------------------------------------------------------------------------------ *)
-(* rest_route_ops, part 1: the generated routes() table compiles to the hand-written route_spec *)
-Lemma routes_compile : compile_rest rest_routes = route_spec.
+(* rest_table_spec, part 1: the generated routes() table compiles to the hand-written route_spec up to the order of routes
+   that are apart (Model/C11_Tables.v: routes_equiv); the dispatch of the two tables is then the same function, see
+   routes_equiv_resolve / rest_resolve_is_spec below *)
+Lemma routes_compile : routes_equiv (compile_rest rest_routes) route_spec = true.
 Proof. vm_compute. reflexivity. Qed.
 
 Lemma chain_is : rest_handler_chain = ["basicAuthHandler"; "cors.New.Handler"; "router"]
@@ -98,6 +101,121 @@ Proof.
 Qed.
 
 (* ------------------------------------------------------------------------------------------ *)
+(* route order: tables that are routes_equiv dispatch identically                             *)
+(* ------------------------------------------------------------------------------------------ *)
+Lemma ends_empty_split segs : ends_empty segs = true -> segs = drop_last_seg segs ++ [""].
+Proof.
+  induction segs as [|x [|y r] IH]; intros H; [discriminate | |].
+  - cbn in H. apply String.eqb_eq in H. subst. reflexivity.
+  - change (ends_empty (y :: r) = true) in H. change (x :: y :: r = x :: (drop_last_seg (y :: r) ++ [""])). f_equal. exact (IH H).
+Qed.
+
+Lemma path_match_some strict t segs : path_match strict t segs <> PNo ->
+  match_segs t segs <> None \/ (ends_empty segs = true /\ match_segs t (drop_last_seg segs) <> None).
+Proof.
+  unfold path_match. destruct (match_segs t segs) eqn:E; [left; discriminate|]. intros H. right.
+  destruct (strict && (ends_empty segs && negb (Nat.eqb (List.length segs) 1))) eqn:C; [|contradiction].
+  apply andb_prop in C as [_ C]. apply andb_prop in C as [C _]. split; [exact C|].
+  destruct (match_segs t (drop_last_seg segs)); [discriminate | contradiction].
+Qed.
+
+Lemma path_match_none strict t segs : match_segs t segs = None ->
+  (ends_empty segs = true -> match_segs t (drop_last_seg segs) = None) -> path_match strict t segs = PNo.
+Proof.
+  intros H1 H2. unfold path_match. rewrite H1.
+  destruct (strict && (ends_empty segs && negb (Nat.eqb (List.length segs) 1))) eqn:C; [|reflexivity].
+  apply andb_prop in C as [_ C]. apply andb_prop in C as [C _]. rewrite (H2 C). reflexivity.
+Qed.
+
+(* templates that are apart: no request path is answered (PExact or PSlash) by both, with or without StrictSlash *)
+Lemma tpl_apart_path_match t1 t2 : tpl_apart t1 t2 = true ->
+  forall strict segs, path_match strict t1 segs <> PNo -> path_match strict t2 segs = PNo.
+Proof.
+  unfold tpl_apart. intros H strict segs Hm.
+  apply andb_prop in H as [H S21]. apply andb_prop in H as [D S12].
+  destruct (path_match_some _ _ _ Hm) as [M1|[He M1]].
+  - apply path_match_none.
+    + exact (tpl_disjoint_sound t1 t2 D segs M1).
+    + intros He. apply (tpl_skew_sound t1 t2 S12). rewrite <- (ends_empty_split segs He). exact M1.
+  - apply path_match_none.
+    + destruct (match_segs t2 segs) eqn:E; [|reflexivity]. exfalso. apply M1.
+      apply (tpl_skew_sound t2 t1 S21). rewrite <- (ends_empty_split segs He). congruence.
+    + intros _. exact (tpl_disjoint_sound t1 t2 D _ M1).
+Qed.
+
+Lemma tseg_eqb_eq a b : tseg_eqb a b = true -> a = b.
+Proof.
+  destruct a, b; cbn [tseg_eqb]; intros H; try discriminate.
+  - apply String.eqb_eq in H. subst. reflexivity.
+  - apply String.eqb_eq in H. subst. reflexivity.
+  - apply andb_prop in H as [H1 H2]. apply String.eqb_eq in H1. apply strs_eqb_eq in H2. subst. reflexivity.
+  - apply String.eqb_eq in H. subst. reflexivity.
+Qed.
+
+Lemma rhandler_idx_inj h h' : N.eqb (rhandler_idx h) (rhandler_idx h') = true -> h = h'.
+Proof. destruct h, h'; intros H; try reflexivity; discriminate H. Qed.
+
+Lemma rroute_eqb_eq a b : rroute_eqb a b = true -> a = b.
+Proof.
+  destruct a as [[m t] h], b as [[m' t'] h']. cbn [rroute_eqb]. intros H.
+  apply andb_prop in H as [H H3]. apply andb_prop in H as [H1 H2].
+  apply String.eqb_eq in H1. apply (list_eqb_eq tseg_eqb tseg_eqb_eq) in H2. apply rhandler_idx_inj in H3. subst. reflexivity.
+Qed.
+
+(* one route of the table: what it answers, given what the rest of the table would answer (k) and whether an earlier
+   route already matched the path with another method (seen) *)
+Definition rstep (strict : bool) (m : string) (segs : list string) (x : rroute) (k : bool -> rmatch) (seen : bool) : rmatch :=
+  let '(rm, t, h) := x in
+  match path_match strict t segs with
+  | PNo => k seen
+  | PExact v => if String.eqb m rm then MFull h v else k true
+  | PSlash => if String.eqb m rm then MRedirect else k true
+  end.
+Definition rbase (seen : bool) : rmatch := if seen then M405 else M404.
+
+Lemma resolve_run strict m segs rs : forall seen, resolve strict rs m segs seen = fm_run (rstep strict m segs) rbase rs seen.
+Proof.
+  induction rs as [|[[rm t] h] rs IH]; intros seen; [reflexivity|].
+  cbn [resolve fm_run rstep]. destruct (path_match strict t segs); [apply IH | |]; destruct (String.eqb m rm); try reflexivity; apply IH.
+Qed.
+
+Lemma rstep_ext strict m segs x k k' : (forall s, k s = k' s) -> forall s, rstep strict m segs x k s = rstep strict m segs x k' s.
+Proof.
+  intros H s. destruct x as [[rm t] h]. cbn [rstep].
+  destruct (path_match strict t segs); [apply H | |]; destruct (String.eqb m rm); try reflexivity; apply H.
+Qed.
+
+(* routes that are apart commute: different methods interact only through `seen`, which both set to true; equal methods
+   with templates apart never both see the path *)
+Lemma rstep_swap strict m segs x y : rroute_apart x y = true ->
+  forall k s, rstep strict m segs x (rstep strict m segs y k) s = rstep strict m segs y (rstep strict m segs x k) s.
+Proof.
+  destruct x as [[m1 t1] h1], y as [[m2 t2] h2]. cbn [rroute_apart]. intros H k s. cbn [rstep].
+  destruct (path_match strict t1 segs) as [|v1|] eqn:P1; [reflexivity | |];
+    (destruct (path_match strict t2 segs) as [|v2|] eqn:P2; [reflexivity | |]);
+    (apply orb_prop in H as [H|H];
+     [ apply negb_true_iff in H;
+       destruct (String.eqb m m1) eqn:E1; destruct (String.eqb m m2) eqn:E2; try reflexivity;
+       apply String.eqb_eq in E1; apply String.eqb_eq in E2; subst; rewrite String.eqb_refl in H; discriminate
+     | exfalso; assert (Hn : path_match strict t1 segs <> PNo) by (rewrite P1; discriminate);
+       rewrite (tpl_apart_path_match t1 t2 H strict segs Hn) in P2; discriminate ]).
+Qed.
+
+(* the transfer lemma: equivalent tables resolve every request identically (any table sizes, any `seen`) *)
+Lemma routes_equiv_resolve rs1 rs2 : routes_equiv rs1 rs2 = true ->
+  forall strict m segs seen, resolve strict rs1 m segs seen = resolve strict rs2 m segs seen.
+Proof.
+  intros H strict m segs seen. rewrite !resolve_run.
+  apply (trace_equiv_run rroute_eqb rroute_apart (rstep strict m segs) rbase rroute_eqb_eq
+           (rstep_ext strict m segs) (rstep_swap strict m segs) rs1 rs2 H).
+Qed.
+
+(* rest_table_spec, part 2: the generated table dispatches exactly like the hand-written one *)
+Lemma rest_resolve_is_spec m segs :
+  resolve rest_strict_slash (compile_rest rest_routes) m segs false = resolve rest_strict_slash route_spec m segs false.
+Proof. apply routes_equiv_resolve. exact routes_compile. Qed.
+
+(* ------------------------------------------------------------------------------------------ *)
 (* routing                                                                                    *)
 (* ------------------------------------------------------------------------------------------ *)
 Lemma resolve_in strict rs m segs : forall seen h v, resolve strict rs m segs seen = MFull h v ->
@@ -139,7 +257,7 @@ Definition strip_head (m : string) (r : rres) : rres :=
   else r.
 
 Lemma rest_run_unfold rq e : rest_run rq e = strip_head (rr_meth rq) (rest_run_with true route_spec rq e).
-Proof. unfold rest_run. rewrite routes_compile. reflexivity. Qed.
+Proof. unfold rest_run, rest_run_with. rewrite rest_resolve_is_spec. reflexivity. Qed.
 
 Lemma rest_run_routed rq e h vars : routed rq e h vars -> rest_run rq e = handle h vars (rr_query rq) e.
 Proof.
